@@ -18,6 +18,10 @@
    The measurement function h is an arbitrary function on columns (the harness'
    AdditiveMeasurementModel applies it column by column); the innovation is the
    standard additive one, y - predicted mean.
+   Statelessness: one correct() call is modelled as a pure function of that call's inputs
+   (what the measurement model returns NOW, the belief passed NOW); nothing computed at an
+   earlier call of the same object is an input.  The correspondence check drives one object
+   through several calls with changing R / y / h / belief / sizes to tie this to the code.
    No proofs in this file. *)
 Require Import ZArith List.
 Require Import BFL.Ops BFL.Density.
